@@ -171,11 +171,19 @@ PROPS = {
                     "assembled theorem; with a registration racing the snapshot Stop hangs (known finding "
                     "C18-onopen-outlives-snapshot). The core engine's Shutdown is modelled as Stop (its context select is not "
                     "modelled). For the HTTP engine 'Stop / Shutdown returns nil' is one theorem from the point where every conn "
-                    "is settled (c18_http_stop_returns_when_settled: the remaining statements all run, result nil), and from the "
-                    "swept state (c18_http_stop_returns_fair: every socket closed, no close job dropped; the conns take their own "
-                    "steps in any interleaving until none has a step left - fairness is a hypothesis on the schedule, at most 11 "
-                    "steps per conn - then all are settled, the map is empty, the result is nil); excluded: a conn still outside "
-                    "the map on its way in when the sweep runs, dropped close jobs, the pinned tree. Listener accepts, dials, in-flight writes and pending timers occur only in the real-engine "
+                    "is settled (c18_http_stop_returns_when_settled: the remaining statements all run, result nil), and "
+                    "c18_http_stop_returns_fair with this exact scope: repaired tree only; the start state is ASSUMED to be "
+                    "Swept (every conn's socket closed, no close job dropped) - no lemma derives Swept from the sweep step "
+                    "(c18_http_sweep_closes_all covers the conns in the map only; a conn mid-add-path at the sweep is "
+                    "excluded); the continuation consists of conn steps only (no accept, tick, further sweep or ctxExpire: "
+                    "Shutdown's context stays live); quiescence of the end state and fairness are hypotheses on the schedule "
+                    "(not proved to be reached; at most 11 own steps per conn); the core engine's Stop is three abstract steps "
+                    "there (coreBegin/coreWaited/coreFinish), not refined to StopM, so c18_stop_returns' exclusions are neither "
+                    "used nor inherited; dropped close jobs and the pinned tree are outside. The case kinds fdlimit and ioblock "
+                    "of hstop are not model-checked at all: their driver lines are constants written in the driver, no step of "
+                    "StopM / HttpStop / Lmux runs and no theorem applies to them - they are judged by direct oracles (watchdog, "
+                    "panic, close-count, census) and, for fdlimit, two source predicates only. "
+                    "Listener accepts, dials, in-flight writes and pending timers occur only in the real-engine "
                     "tier, where the model receives the observed opened/closed counts as inputs; that a stopped listener accepts "
                     "nothing further is observed in the real tier only (HttpStop: accept is disabled once the listeners are "
                     "closed; hsim: the late accept); the DialAsync registration-failure path is not a step of the model "
